@@ -2,6 +2,7 @@
 EXTENDS DirHash
 N1 == <<"x", "y">>
 N2 == <<"x">>
+N2big == <<"x", "y">>
 (* raw targets: sibling, the same sibling written differently, parent's entry, parent's "o" (a sibling of the hashed
    directory when the link is at the top level), outside, outside via a longer way *)
 RT == {<<"x">>, <<".", "x">>, <<"..", "y">>, <<"..", "o">>, <<"..", "..", "o">>, <<"y", "..", "..", "..", "o">>}
